@@ -5,13 +5,23 @@ set -eu
 cd "$(dirname "$0")/sim"
 export GOFLAGS=-mod=mod GOPROXY=off GOSUMDB=off GOTOOLCHAIN=local GOWORK=off
 mkdir -p ../bin
-go build -tags verif -o ../bin/verifsim ./cmd/verifsim
+# The repository under test: /repo's working tree, unless a background run was given its own
+# snapshot of /repo (vp run --with-repo sets VP_RUN_REPO), so that edits made to /repo meanwhile
+# do not leak into it.
+REPO="${VERIF_REPO:-${VP_RUN_REPO:-/repo}}"
+MODFILE=""
+if [ "$REPO" != "/repo" ]; then
+  MODDIR=$(mktemp -d /tmp/verifsim-mod-XXXXXX)
+  sed "s#=> /repo#=> $REPO#" go.mod > "$MODDIR/go.mod"; cp go.sum "$MODDIR/go.sum"
+  MODFILE="-modfile=$MODDIR/go.mod"
+fi
+go build $MODFILE -tags verif -o ../bin/verifsim ./cmd/verifsim
 if [ "${1:-}" = "C09" ] || [ "${1:-}" = "all" ]; then
   # C09 worker: built against a scratch copy of /repo in which a yield point precedes every
   # statement of the validator path (tools/yieldins). The copy is removed again.
   COPY=$(mktemp -d /tmp/verifsim-c09-XXXXXX)
   trap 'rm -rf "$COPY"' EXIT
-  rsync -a --exclude .git /repo/ "$COPY/"
+  rsync -a --exclude .git "$REPO/" "$COPY/"
   go build -o ../bin/yieldins ./tools/yieldins
   ../bin/yieldins "$COPY" verify/verify.go gcetcbendorsement/sevvalidate.go gcetcbendorsement/sevpolicy.go gcetcbendorsement/tdxvalidate.go gcetcbendorsement/tdxpolicy.go >/dev/null
   sed "s#=> /repo#=> $COPY#" go.mod > "$COPY/harness.mod"
@@ -21,6 +31,8 @@ if [ "${1:-}" = "C09" ] || [ "${1:-}" = "all" ]; then
 fi
 if [ "${1:-}" = "C20" ] || [ "${1:-}" = "all" ]; then
   if [ -d worldk ]; then
-    go1.26.8 test -tags verif -c -o ../bin/worldk.test ./worldk
+    go1.26.8 test $MODFILE -tags verif -c -o ../bin/worldk.test ./worldk
   fi
 fi
+[ -n "${MODDIR:-}" ] && rm -rf "$MODDIR"
+exit 0
